@@ -8,7 +8,7 @@ fams = mixins.families()
 allobl=[]
 for fam in fams[:1]:
     for key, spec in fam.specs.items():
-        if only and not any(o in key[0] for o in only): continue
+        if only and not any(o in key[0] or o==key[1] for o in only): continue
         fi, obl, fails = heapworld.verify_spec(spec)
         print("==", key, "obligations:", len(obl), "struct:", [f.msg for f in fails])
         allobl += obl
@@ -22,3 +22,10 @@ for o in bad: print("NOT ACCEPTED", o.result, o.time, o.name)
 print("total", len(allobl), "bad", len(bad), "solve %.1fs"%(time.time()-t0), "max", max(o.time for o in allobl))
 
 for o in sorted(allobl,key=lambda o:-o.time)[:12]: print(o.time,o.backend,o.result,o.name[30:160])
+import collections
+per=collections.defaultdict(list)
+for o in allobl:
+    if o.kind=='CANARY':
+        fn=o.name.split('/CANARY:')[0].split(':')[-1]; lab=o.name.split('exit-reachable:')[1].split('/')[0]
+        per[(fn,lab)].append(o.result)
+for k,v in per.items(): print(k, collections.Counter(v))
